@@ -1106,7 +1106,16 @@ func (c *Ctx) ruleP3() {
 			}
 			cons := fnKey(f) + "→Append…Put#atomic"
 			ls := locksets(f)
-			la, lp := ls[app], ls[put]
+			la, lp := ls[app].clone(), ls[put].clone()
+			// locks held by every caller (or by the helper that runs this function literal)
+			for k, v := range c.entryLocks(f, 0) {
+				if _, ok := la[k]; !ok {
+					la[k] = v
+				}
+				if _, ok := lp[k]; !ok {
+					lp[k] = v
+				}
+			}
 			common := meet(la, lp)
 			for k, m := range common {
 				if m != "W" {
